@@ -225,8 +225,8 @@ Section Del.
     let len := Z.of_N (hdr_len hdr) in           (* as i32: < 2^29 *)
     match ks with
     | KIndex i :: r =>
-        let idx := (if i <? 0 then len + i else i)%Z in      (* len >= 0 > i: no overflow *)
-        if ((idx <? 0) || (len <=? idx))%Z then Ok None else
+        let idx := DKP_B_RESOLVE i len in      (* generated from delete_jsonb_array_by_keypath; len >= 0 > i: no overflow *)
+        if DKP_B_SKIP idx len then Ok None else
         iterate_array value hdr (del_arr_step (Z.to_N idx)) del_arr_fin (0, [], r)
     | _ => Ok None
     end.
